@@ -110,7 +110,7 @@ def gen_std(ctx, path):
 
 def other_surfaces(ctx):
     """operators (C10 driver) and blends / compositing (C08 driver) on their quick lattices, judged for finiteness here"""
-    bins = cargo_build(["ops", "blend", "cam16"])
+    bins = cargo_build(["ops", "blend", "cam16", "diff"])
     nodes = ctx.p("nodes.json")
     json.dump({k: [None if r is None else list(r) for r in v] for k, v in list(NODES.items()) + list(OPS_EXTRA.items())}, open(nodes, "w"))
     out = []
@@ -125,6 +125,10 @@ def other_surfaces(ctx):
     tp = ctx.p("c07.cam16.ndjson")
     run_bin(bins["cam16"], ["--pfin", 6 if ctx.quick else 40, "--out", tp], env={"VERIF_SEED": ctx.seed})
     out.append(("cam16", tp))
+    # colour differences (C09 driver) of pairs that differ in one component by nothing, a last place, a billionth ... a thousandth
+    tp = ctx.p("c07.diff.ndjson")
+    run_bin(bins["diff"], ["--fin", "--tier", ctx.tier, "--out", tp], env={"VERIF_SEED": ctx.seed})
+    out.append(("diff", tp))
     return out
 
 
@@ -175,7 +179,7 @@ def run(ctx):
         add_samples(ctx, tp, n=1, every=40009)
         for (line, ev, info, _) in res.rejected:
             why = info.strip().strip('"')
-            d = {"kind": ev["ev"], "class": why, "t": ev.get("t"), "from": ev.get("node") or ev.get("ty") or ev.get("pk"), "to": ev.get("call") or ev.get("mode")}
+            d = {"kind": ev["ev"], "class": why, "t": ev.get("t"), "from": ev.get("node") or ev.get("ty") or ev.get("pk"), "to": ev.get("call") or ev.get("mode") or ev.get("m")}
             what = "%s %s %s: %s; event %s" % (ev.get("t"), d["from"], d["to"], why, json.dumps(ev)[:400])
             report(ctx, d, what, {"bin": tag, "event": ev, "trace_line": line})
     return finish(ctx, "model_checking",
